@@ -20,7 +20,6 @@ struct St {
     acc: Option<Val>,
     /// keyed accumulators in first-arrival order of the key
     keyed: Vec<(Val, Val)>,
-    keyed2: Vec<(Val, Val)>,
 }
 
 pub struct Interp<'a> {
